@@ -138,14 +138,14 @@ Print Assumptions C04_valid_does_not_imply_tables_ok.
    table_rows) *)
 Theorem C04_row_cells : forall blank cols rows nonempty aligns this_row k ne',
   try_opening_row_cells blank cols rows nonempty aligns this_row = Some (k, ne') ->
-  k = aligns /\ exists cells, this_row = Some cells /\ ne' = nonempty + Nat.min aligns cells /\
-  blank = false /\ (N.of_nat (autocompleted cols rows nonempty) <= max_autocompleted_cells)%N.
+  k = aligns /\ exists cells, this_row = Some cells /\ ne' = (nonempty + N.of_nat (Nat.min aligns cells))%N /\
+  blank = false /\ (autocompleted cols rows nonempty <= max_autocompleted_cells)%N.
 Proof. exact row_cells. Qed.
 Print Assumptions C04_row_cells.
 
 Theorem C04_row_refused_iff : forall blank cols rows nonempty aligns this_row,
   try_opening_row_cells blank cols rows nonempty aligns this_row = None <->
-  blank = true \/ (max_autocompleted_cells < N.of_nat (autocompleted cols rows nonempty))%N \/ this_row = None.
+  blank = true \/ (max_autocompleted_cells < autocompleted cols rows nonempty)%N \/ this_row = None.
 Proof. exact row_refused. Qed.
 Print Assumptions C04_row_refused_iff.
 
@@ -172,8 +172,9 @@ Print Assumptions C04_built_table_ok.
 Example C04_example :
   structurally_valid ex_tree = true /\ validate ex_tree = None /\
   (exists b, html slug_id o_rich ex_tree = Ok b) /\ (exists b, xml o_rich ex_tree = Ok b) /\
-  try_opening_row_cells false 3 1 3 3 (Some 1) = Some (3, 4) /\
-  try_opening_row_cells false 3 1 3 3 (Some 5) = Some (3, 6) /\
+  try_opening_row_cells false 3 1 3 3 (Some 1) = Some (3, 4%N) /\
+  try_opening_row_cells false 3 1 3 3 (Some 5) = Some (3, 6%N) /\
+  try_opening_row_cells false 1000 501 0 1000 (Some 1) = None /\
   validate w_ragged = None /\
   validate (nd Document [nd Paragraph [nd Paragraph []]]) = Some (KParagraph, KParagraph).
 Proof.
